@@ -177,6 +177,12 @@ def evaluate_case(c):
         return eval_typed(SF, c)
     if kind == 'sequence':
         return eval_sequence(SF, c)
+    if kind == 'interleave':
+        return eval_interleave(SF, c)
+    if kind == 'sf_array':
+        return eval_sf_array(SF, c)
+    if kind == 'convention':
+        return eval_convention(SF, c)
     raise ValueError('unknown case kind %r' % kind)
 
 
@@ -362,7 +368,14 @@ def eval_typed(SF, c):
             got = np.array(f(typed_value(cont, vals)))
             want_shape = (3,) if m == 'normalRadii' else ()
         elif cont in TYPED_ARRAYS:
-            got = np.array(f(typed_value(cont, vals)))
+            arg = typed_value(cont, vals)
+            before = np.array(arg).copy()
+            got = np.array(f(arg))
+            again = np.array(f(arg))                 # the caller re-uses the argument object for the next call
+            if np.array(arg).tobytes() != before.tobytes():
+                hits.append(('no_argument_mutation', PROCESS_SITE, 'argument of another type', '%s.%s(%s %r) changed its argument to %r' % (shape, m, cont, vals, np.array(arg).tolist()), dict(c)))
+            if again.shape != got.shape or again.tobytes() != got.tobytes():
+                hit('value', '%s.%s(%s %r): a second call with the same argument object gives %r, the first gave %r' % (shape, m, cont, vals, again.tolist(), got.tolist()), vals)
             want_shape = ((len(vals), 3) if m == 'normalRadii' else (len(vals),)) if len(vals) > 1 else ((3,) if m == 'normalRadii' else ())
         else:
             # through ShapeFactor: the aspect ratio is what the user's function of the radius returns
@@ -405,18 +418,21 @@ def eval_typed(SF, c):
 SETTERS = {'sphere': 'setSpherical', 'needle': 'setNeedleShape', 'plate': 'setPlateShape', 'cubic': 'setCuboidalShape'}
 
 
-def run_sequence(SF, c, upto=None):
-    """execute the operations of a sequence case; returns list of (index, op, answer of the reused object,
-    answer of a freshly constructed object in the same configuration, configuration)"""
-    Rs, Rmax = float.fromhex(c['Rs']), float.fromhex(c['Rmax'])
-    sf = SF.ShapeFactor()
-    shape, spec = 'sphere', {'type': 'const', 'p': [1.0]}
-    answers = []
-    for i, op in enumerate(c['ops'] if upto is None else c['ops'][:upto]):
+class SeqObj:
+    """one ShapeFactor object driven by operations; remembers the configuration it should be in"""
+
+    def __init__(self, SF, Rs, Rmax):
+        self.SF, self.Rs, self.Rmax = SF, Rs, Rmax
+        self.sf = SF.ShapeFactor()
+        self.shape, self.spec = 'sphere', {'type': 'const', 'p': [1.0]}
+
+    def step(self, op):
+        """returns None for a reconfiguration, (answer, answer of a fresh object alone, configuration) for a query"""
+        SF, sf, Rs = self.SF, self.sf, self.Rs
         k = op[0]
         if k == 'set_shape':
-            _, how, shape, spec = op
-            ar = aspect_fun(spec, Rs)
+            _, how, self.shape, self.spec = op
+            shape, ar = self.shape, aspect_fun(self.spec, Rs)
             if how == 'name':
                 sf.setPrecipitateShape(shape, ar)
             elif how == 'setter':
@@ -428,45 +444,90 @@ def run_sequence(SF, c, upto=None):
                 if shape == 'sphere':
                     sf.setAspectRatio(ar)
         elif k == 'set_aspect':
-            spec = op[1]
-            sf.setAspectRatio(aspect_fun(spec, Rs))
+            self.spec = op[1]
+            sf.setAspectRatio(aspect_fun(self.spec, Rs))
         elif k == 'description':
-            shape = op[1]
-            sf.description = descr(SF, shape)       # public property; the aspect ratio stays what it was
+            self.shape = op[1]
+            sf.description = descr(SF, self.shape)       # public property; the aspect ratio stays what it was
         elif k in ('find', 'read'):
             fresh = SF.ShapeFactor()
-            fresh.description = descr(SF, shape)
-            fresh.setAspectRatio(aspect_fun(spec, Rs))
+            fresh.description = descr(SF, self.shape)
+            fresh.setAspectRatio(aspect_fun(self.spec, Rs))
             if k == 'find':
-                a, b = sf.findRcrit(Rs, Rmax), fresh.findRcrit(Rs, Rmax)
+                a, b = sf.findRcrit(Rs, self.Rmax), fresh.findRcrit(Rs, self.Rmax)
             else:
                 R = float(op[2]) * Rs
                 a, b = getattr(sf, op[1])(R), getattr(fresh, op[1])(R)
-            answers.append((i, op, np.array(a, dtype=float), np.array(b, dtype=float), (shape, spec)))
+            return np.array(a, dtype=float), np.array(b, dtype=float), (self.shape, self.spec)
         else:
             raise ValueError('unknown operation %r' % (op,))
+        return None
+
+
+def run_sequence(SF, c, upto=None):
+    """execute the operations of a sequence case on one object; returns list of (index, op, answer of the reused
+    object, answer of a freshly constructed object in the same configuration, configuration)"""
+    Rs, Rmax = float.fromhex(c['Rs']), float.fromhex(c['Rmax'])
+    o = SeqObj(SF, Rs, Rmax)
+    answers = []
+    for i, op in enumerate(c['ops'] if upto is None else c['ops'][:upto]):
+        r = o.step(op)
+        if r is not None:
+            answers.append((i, op, *r))
     return answers
 
 
-def sequence_hits(SF, c):
+def run_interleaved(SF, c):
+    """several objects alive at once, each with its own operation list, executed in the given interleaving"""
+    Rs, Rmax = float.fromhex(c['Rs']), float.fromhex(c['Rmax'])
+    objs = [SeqObj(SF, Rs, Rmax) for _ in c['seqs']]
+    pos = [0] * len(objs)
+    answers = []
+    for step, j in enumerate(c['order']):
+        if pos[j] >= len(c['seqs'][j]):
+            continue
+        op = c['seqs'][j][pos[j]]
+        pos[j] += 1
+        r = objs[j].step(op)
+        if r is not None:
+            answers.append((step, op, *r))
+    return answers
+
+
+def sequence_hits(SF, c, answers=None, what='reused object'):
     Rs, Rmax = float.fromhex(c['Rs']), float.fromhex(c['Rmax'])
     out = []
-    for i, op, a, b, (shape, spec) in run_sequence(SF, c):
+    for i, op, a, b, (shape, spec) in (run_sequence(SF, c) if answers is None else answers):
         cfg = '%s, aspect ratio %s' % (shape, spec['p'][0] if spec['type'] == 'const' else '%s%r' % (spec['type'], spec['p']))
+        ar = aspect_fun(spec, Rs)
+        arf = (lambda R: float(ar)) if spec['type'] == 'const' else (lambda R: float(ar(R)))
         if a.shape != b.shape or a.tobytes() != b.tobytes():
             if op[0] == 'find':
                 out.append((i, 'findRcrit_root', 'ShapeFactors.ShapeFactor.findRcrit', 'state carried over a reconfiguration',
-                            'operation %d of the sequence: findRcrit(%r, %r) on the reused object (%s) = %r, a freshly constructed ShapeFactor in the same configuration gives %r'
-                            % (i, Rs, Rmax, cfg, a.tolist(), b.tolist())))
+                            'operation %d of the sequence: findRcrit(%r, %r) on the %s (%s) = %r, a freshly constructed ShapeFactor in the same configuration gives %r'
+                            % (i, Rs, Rmax, what, cfg, a.tolist(), b.tolist())))
             else:
                 out.append((i, 'composition', 'ShapeFactors.ShapeFactor.' + op[1], 'state carried over a reconfiguration',
-                            'operation %d of the sequence: %s(%r) on the reused object (%s) = %r, a freshly constructed ShapeFactor in the same configuration gives %r'
-                            % (i, op[1], float(op[2]) * Rs, cfg, a.tolist(), b.tolist())))
+                            'operation %d of the sequence: %s(%r) on the %s (%s) = %r, a freshly constructed ShapeFactor in the same configuration gives %r'
+                            % (i, op[1], float(op[2]) * Rs, what, cfg, a.tolist(), b.tolist())))
             continue
+        if op[0] == 'read':
+            # the value itself against the independent geometry (a fresh object could share the same stale state)
+            R = float(op[2]) * Rs
+            x = max(arf(R), 1.0)
+            o = {'eqRadiusFactor': oracle_eqradius, 'thermoFactor': oracle_thermo, 'kineticFactor': oracle_kinetic}.get(op[1])
+            if o is not None and a.shape == () and (x > 1 or shape in ('sphere', 'cubic')):
+                ov = o(shape, x)
+                if ov is not None and not abs(float(a) - ov) <= 2e-9 * abs(ov) + noise(x):
+                    out.append((i, 'composition', 'ShapeFactors.ShapeFactor.' + op[1], 'value after a history',
+                                'operation %d of the sequence: %s(%r) (%s) = %r, the geometry gives %r' % (i, op[1], R, cfg, float(a), ov)))
+            if op[1] == 'normalRadii' and a.shape == (3,):
+                vol = a[0] * a[1] * a[2] * (1.0 if shape == 'cubic' else 4 * math.pi / 3)
+                if not abs(vol - 1) <= 1e-12:
+                    out.append((i, 'axes_volume', 'ShapeFactors.ShapeFactor.normalRadii', 'value after a history',
+                                'operation %d of the sequence: normalRadii(%r) (%s) = %r encloses volume %r' % (i, R, cfg, a.tolist(), vol)))
         if op[0] == 'find' and a.shape == ():
             # the root condition itself, with the independent thermodynamic factor
-            ar = aspect_fun(spec, Rs)
-            arf = (lambda R: float(ar)) if spec['type'] == 'const' else (lambda R: float(ar(R)))
             g = lambda R: R / (Rs * oracle_thermo(shape, arf(R))) - 1
             r = float(a)
             if spec['type'] == 'const':
@@ -478,6 +539,146 @@ def sequence_hits(SF, c):
                 out.append((i, 'findRcrit_root', 'ShapeFactors.ShapeFactor.findRcrit', 'sequence',
                             'operation %d of the sequence: findRcrit(%r, %r) (%s) = %r: R/(R_sphere*factor) - 1 = %r' % (i, Rs, Rmax, cfg, r, g(r))))
     return out
+
+
+def eval_interleave(SF, c):
+    """two or three ShapeFactor objects, configured differently and used interleaved: each answer must be the one the
+    object would give alone (fresh object in its configuration) and must match the geometry"""
+    try:
+        found = sequence_hits(SF, c, answers=run_interleaved(SF, c), what='object used interleaved with others')
+    except Exception as e:
+        return [('no_internal_error', 'ShapeFactors.ShapeFactor', type(e).__name__, 'interleaved objects raised %s: %s' % (type(e).__name__, e), dict(c))]
+    hits, seen = [], set()
+    for i, clause, site, cls, msg in found:
+        if (clause, site, cls) in seen:
+            continue
+        seen.add((clause, site, cls))
+        hits.append((clause, site, 'interleaved objects: ' + cls, msg, dict(c, order=c['order'][:i + 1])))
+    return hits
+
+
+def eval_sf_array(SF, c):
+    """ShapeFactor functions of the radius: an array of n radii (n = 1..8) against the n scalar calls, lists and 0-d arrays,
+    the argument left unchanged and re-used for a second call"""
+    shape = c['shape']
+    Rs = float.fromhex(c['Rs'])
+    Rv = [float(m) * Rs for m in c['mult']]
+    sf = SF.ShapeFactor()
+    sf.setPrecipitateShape(descr(SF, shape), aspect_fun(c['aspect'], Rs))
+    sf.setAspectRatio(aspect_fun(c['aspect'], Rs))
+    hits = []
+    for m in FACTORS + ['normalRadii']:
+        f = getattr(sf, m)
+        site = 'ShapeFactors.ShapeFactor.' + m
+
+        def hit(cls, msg):
+            hits.append(('scalar_array_agree', site, cls, msg, dict(c)))
+        try:
+            # reference: the description's function at the aspect ratio the user's function returns for that radius, taken from the
+            # ARRAY evaluation of the aspect-ratio function (numpy may round array and scalar evaluations of x**p differently)
+            arfun = aspect_fun(c['aspect'], Rs)
+            dm = getattr(descr(SF, shape), m)
+            if c['aspect']['type'] == 'const':
+                ars_arr, ars_sc = [float(arfun)] * len(Rv), [float(arfun)] * len(Rv)
+            else:
+                ars_arr, ars_sc = [float(x) for x in np.asarray(arfun(np.array(Rv, dtype=float)))], [float(arfun(R)) for R in Rv]
+            ref = np.array([np.array(dm(x), dtype=float) for x in ars_arr], dtype=float)
+            for R, x in zip(Rv, ars_sc):
+                one, want1 = np.array(f(R), dtype=float), np.array(dm(x), dtype=float)
+                if one.shape != want1.shape or one.tobytes() != want1.tobytes():
+                    hits.append(('composition', site, 'value', '%s: ShapeFactor.%s(%r) = %r, description.%s(aspect ratio %r) = %r' % (shape, m, R, one.tolist(), m, x, want1.tolist()), dict(c)))
+                    break
+            arr = np.array(Rv, dtype=float)
+            keep = arr.copy()
+            A = np.array(f(arr), dtype=float)
+            A2 = np.array(f(arr), dtype=float)         # the same argument object again
+            L = np.array(f(list(Rv)), dtype=float)
+            Z = np.array(f(np.array(Rv[0])), dtype=float)
+        except Exception as e:
+            hits.append(('no_internal_error', site, type(e).__name__, '%s.%s(%d radii) raised %s: %s' % (shape, m, len(Rv), type(e).__name__, e), dict(c)))
+            continue
+        want = ref.shape if len(Rv) > 1 else ref.shape[1:]
+        if arr.tobytes() != keep.tobytes():
+            hits.append(('no_argument_mutation', site, 'radius array', '%s: ShapeFactor.%s changed the caller\'s radius array' % (shape, m), dict(c)))
+        if A.shape != want or L.shape != want:
+            hit('shape', '%s: ShapeFactor.%s(%d radii) has shape %r (list: %r), expected %r' % (shape, m, len(Rv), A.shape, L.shape, want))
+            continue
+        refc = ref.reshape(want)
+        for name, X in (('array', A), ('same array again', A2), ('list', L)):
+            if X.tobytes() != refc.tobytes():
+                hit('value', '%s: ShapeFactor.%s(%s of %d radii) = %r, the scalar calls give %r' % (shape, m, name, len(Rv), X.tolist(), refc.tolist()))
+                break
+        z0 = np.array(dm(ars_sc[0]), dtype=float)
+        if Z.shape != z0.shape or Z.tobytes() != z0.tobytes():
+            hit('value', '%s: ShapeFactor.%s(0-d array) = %r, the scalar call gives %r' % (shape, m, Z.tolist(), z0.tolist()))
+    return hits
+
+
+def eval_convention(SF, c):
+    """the same configuration reached through the different public calling conventions (positional / keyword / omitted
+    default arguments, constructor / setPrecipitateShape by name or instance / set...Shape) answers identically"""
+    shape, a = c['shape'], c['ar']
+    Rs, Rmax = float.fromhex(c['Rs']), float.fromhex(c['Rmax'])
+    setter = SETTERS[shape]
+
+    def build(how):
+        if how == 'ctor positional':
+            return SF.ShapeFactor(shape, a)
+        if how == 'ctor keywords':
+            return SF.ShapeFactor(precipitateShape=shape, ar=a)
+        if how == 'ctor keywords swapped':
+            return SF.ShapeFactor(ar=a, precipitateShape=shape.upper())
+        sf = SF.ShapeFactor()
+        if how == 'setPrecipitateShape name':
+            sf.setPrecipitateShape(shape, a)
+        elif how == 'setPrecipitateShape keywords instance':
+            sf.setPrecipitateShape(precipitateShape=descr(SF, shape), ar=a)
+        elif how == 'setter positional':
+            getattr(sf, setter)(a)
+        elif how == 'setter keyword':
+            getattr(sf, setter)(ar=a)
+        elif how == 'shape then setAspectRatio keyword':
+            sf.setPrecipitateShape(shape)
+            sf.setAspectRatio(ar=a)
+        elif how == 'default then description':      # omitted arguments: sphere, aspect ratio 1
+            sf.setAspectRatio(a)
+            sf.description = descr(SF, shape)
+        return sf
+    hows = ['ctor positional', 'ctor keywords', 'ctor keywords swapped', 'setPrecipitateShape name', 'setPrecipitateShape keywords instance',
+            'setter positional', 'setter keyword', 'shape then setAspectRatio keyword', 'default then description']
+    if a == 1:
+        hows += ['omitted']
+    hits = []
+
+    def answers(sf):
+        out = [np.array(sf.findRcrit(Rs, Rmax), dtype=float)]
+        for m in FACTORS + ['normalRadii']:
+            out.append(np.array(getattr(sf, m)(Rs), dtype=float))
+            out.append(np.array(getattr(sf, m)(R=np.array([Rs, 2 * Rs, 3 * Rs])), dtype=float))
+        return out
+    ref = None
+    for how in hows:
+        try:
+            sf = SF.ShapeFactor(shape) if how == 'omitted' else build(how)
+            if how == 'omitted' and shape != 'sphere':
+                sf2 = SF.ShapeFactor()
+                getattr(sf2, setter)()
+                if type(sf2.description) is not type(sf.description):
+                    hits.append(('shape_dispatch', 'ShapeFactors.ShapeFactor.' + setter, 'omitted argument', '%s() selects %s' % (setter, type(sf2.description).__name__), dict(c)))
+            ans = answers(sf)
+        except Exception as e:
+            hits.append(('no_internal_error', 'ShapeFactors.ShapeFactor', type(e).__name__, '%s, aspect ratio %r via %s raised %s: %s' % (shape, a, how, type(e).__name__, e), dict(c)))
+            continue
+        if ref is None:
+            ref = (how, ans)
+            continue
+        for k, (x, y) in enumerate(zip(ref[1], ans)):
+            if x.shape != y.shape or x.tobytes() != y.tobytes():
+                what = 'findRcrit' if k == 0 else (FACTORS + ['normalRadii'])[(k - 1) // 2] + (' (scalar radius)' if k % 2 == 1 else ' (array of radii)')
+                hits.append(('composition', 'ShapeFactors.ShapeFactor', 'calling convention',
+                             '%s with aspect ratio %r: %s answers %r when configured via "%s" and %r via "%s"' % (shape, a, what, y.tolist(), how, x.tolist(), ref[0]), dict(c)))
+                break
+    return hits
 
 
 def eval_sequence(SF, c):
@@ -591,6 +792,13 @@ def gen_factor_cases(rng, quick):
             if b > a:
                 cases.append({'kind': 'factors', 'shape': s, 'ars': hexl(xs[a:b])})
             a = b
+        # every array length 1..8 (a length that coincides with an internal dimension, e.g. 3 rows of radii, must not matter)
+        for n in range(1, 9):
+            for rep in range(1 if quick else 6):
+                vals = [float(v) for v in np.exp(rng.uniform(0.05, math.log(100.0), n))]
+                if rep % 2 == 1 and n > 1:
+                    vals[int(rng.integers(0, n))] = float(rng.uniform(-1.0, 1.0))
+                cases.append({'kind': 'factors', 'shape': s, 'ars': hexl(vals)})
     return cases
 
 
@@ -656,6 +864,14 @@ def fixed_sequence_cases():
         out.append({'kind': 'sequence', 'Rs': Rs, 'Rmax': Rmax,
                     'ops': [['set_shape', 'setter', sh, fun], ['find'], ['description', 'plate' if sh != 'plate' else 'needle'], ['find'], ['set_aspect', k(2.0)], ['find'],
                             ['set_shape', 'setter', sh, k(7.0)], ['find'], ['description', 'sphere'], ['find']]})
+        # returning to an EARLIER setting after something else was set in between (a "nothing changed" shortcut must not fire)
+        for how in ('name', 'setter', 'instance'):
+            out.append({'kind': 'sequence', 'Rs': Rs, 'Rmax': Rmax,
+                        'ops': [['set_shape', how, sh, k(2.0)], ['find'], ['set_aspect', fun], ['find'], ['set_shape', how, sh, k(2.0)], ['find'],
+                                ['read', 'thermoFactor', 1.0], ['read', 'normalRadii', 2.0]]})
+        out.append({'kind': 'sequence', 'Rs': Rs, 'Rmax': Rmax,
+                    'ops': [['set_aspect', k(3.0)], ['description', sh], ['find'], ['set_aspect', fun], ['set_aspect', k(3.0)], ['find'],
+                            ['description', 'sphere'], ['description', sh], ['find'], ['read', 'kineticFactor', 1.5]]})
     return out
 
 
@@ -670,6 +886,10 @@ def gen_sequence_case(rng, i):
     n = int(rng.integers(4, 11))
     for _ in range(n):
         u = rng.random()
+        earlier = [op for op in ops if op[0] in ('set_shape', 'set_aspect', 'description')]
+        if earlier and rng.random() < 0.2:
+            ops.append(list(earlier[int(rng.integers(0, len(earlier)))]))       # re-apply an earlier setting verbatim
+            continue
         if u < 0.36:
             ops.append(['find'])
         elif u < 0.48:
@@ -684,6 +904,44 @@ def gen_sequence_case(rng, i):
             ops.append(['description', SHAPES[int(rng.integers(0, 4))]])
     ops.append(['find'])
     return {'kind': 'sequence', 'Rs': Rs.hex(), 'Rmax': Rmax.hex(), 'ops': ops}
+
+
+def gen_interleave_case(rng, i):
+    Rs = float(10.0 ** rng.uniform(-10, -8))
+    Rmax = Rs * float(rng.uniform(4.0, 30.0))
+    k = 2 + int(i % 3 == 0)
+    seqs = []
+    for j in range(k):
+        ops = gen_sequence_case(rng, 1)['ops']
+        seqs.append(ops)
+    order = []
+    left = [len(q) for q in seqs]
+    while any(left):
+        j = int(rng.integers(0, k))
+        if left[j]:
+            left[j] -= 1
+            order.append(j)
+    return {'kind': 'interleave', 'Rs': Rs.hex(), 'Rmax': Rmax.hex(), 'seqs': seqs, 'order': order}
+
+
+def gen_sf_array_cases(rng, quick):
+    cases = []
+    for s in SHAPES:
+        for n in range(1, 9):
+            for rep in range(1 if quick else 5):
+                Rs = float(10.0 ** rng.uniform(-10, -8))
+                cases.append({'kind': 'sf_array', 'shape': s, 'aspect': gen_aspect_spec(rng, const=(n + rep) % 3 == 0), 'Rs': Rs.hex(),
+                              'mult': [float(x) for x in rng.uniform(0.5, 6.0, n)]})
+    return cases
+
+
+def gen_convention_cases(rng, quick):
+    cases = []
+    for s in SHAPES:
+        for a in [1, 2.0, 5, float(rng.uniform(1, 100))] + ([] if quick else [float(x) for x in rng.uniform(0.5, 100, 6)]):
+            Rs = float(10.0 ** rng.uniform(-10, -8))
+            cases.append({'kind': 'convention', 'shape': s, 'ar': a, 'Rs': Rs.hex(), 'Rmax': (Rs * 20).hex()})
+    return cases
 
 
 def gen_rcrit_case(rng, i):
@@ -727,6 +985,8 @@ def nontrivial(c):
         return any(float(v) < 1 for v in c['values'])
     if c['kind'] == 'typed':
         return c['shape'] != 'sphere' and any(int(v) > 1 for v in c['values'])
+    if c['kind'] in ('sf_array', 'convention'):
+        return c['shape'] != 'sphere'
     if c['kind'] == 'sequence':
         # a query after a reconfiguration that followed an earlier query
         ks = [op[0] for op in c['ops']]
@@ -742,6 +1002,8 @@ def search(ctx, quick, budget=1.0):
     nr = int((48 if quick else 6000) * budget)
     cases += [gen_rcrit_case(rng, i) for i in range(nr)]
     cases += fixed_sequence_cases() + [gen_sequence_case(rng, i) for i in range(int((60 if quick else 2000) * budget))]
+    cases += [gen_interleave_case(rng, i) for i in range(int((30 if quick else 1000) * budget))]
+    cases += gen_sf_array_cases(rng, quick) + gen_convention_cases(rng, quick)
     for c in cases:
         try:
             hs = evaluate_case(c)
@@ -750,7 +1012,9 @@ def search(ctx, quick, budget=1.0):
         key = {k: v for k, v in c.items() if not k.startswith('_')}
         ctx.count(key, nontrivial(c))
         ctx.hist('kind', c['kind'])
-        if c['kind'] == 'sequence':
+        if c['kind'] == 'interleave':
+            ctx.hist('interleaved_objects', len(c['seqs']))
+        elif c['kind'] == 'sequence':
             ctx.hist('sequence_length', len(c['ops']))
             for op in c['ops']:
                 ctx.hist('sequence_op', op[0] + ('' if op[0] != 'set_aspect' else ('(scalar)' if op[1]['type'] == 'const' else '(function)')))
@@ -1041,11 +1305,11 @@ def report_proof_failures(ctx, failed):
 # ==========================================================================================
 def run(ctx):
     quick = ctx.quick
-    ctx.cov['rule'] = ('factor cases: four shapes x arrays (length 1, 2, 5, many) of aspect ratios from {dyadic values, 1 + 2^-k, log-uniform in [1,100], '
+    ctx.cov['rule'] = ('factor cases: four shapes x arrays (length 1, 2, 5, many, and EVERY length 1..8) of aspect ratios from {dyadic values, 1 + 2^-k, log-uniform in [1,100], '
                        '1 + 10^U(-9,-1), values below 1 incl. 0 and negatives}, every public function called on the array and on each scalar; '
                        'continuity cases f(1) vs f(1 + 2^-k); argument-type cases (whole-number aspect ratios as Python int, np.int64 / np.int32 / np.float32 scalars, 0-d arrays, int64 / int32 / float32 arrays, lists, tuples, integer-valued aspect-ratio functions and integer constants through ShapeFactor) compared with the float64 call; argument-mutation cases (float / int / 0-d / view arrays, via the description and via ShapeFactor); '
                        'critical-radius cases: R_sphere in [1e-10, 1e-8], Rmax/R_sphere in [1.2, 30], constant and four families of radius-dependent aspect ratios, '
-                       'tolerances 1e-2 .. 1e-10, shape selected by instance / by name / by the set...Shape methods; operation sequences on one ShapeFactor object (findRcrit and factor reads interleaved with setAspectRatio scalar / function, setPrecipitateShape, set...Shape, assignment of description), every answer compared bitwise with a freshly constructed object in the same configuration and with the root condition; bisection traces replayed bit-exactly in Coq; non-trivial = non-spherical shape with an aspect ratio above 1 / '
+                       'tolerances 1e-2 .. 1e-10, shape selected by instance / by name / by the set...Shape methods; operation sequences on one ShapeFactor object (findRcrit and factor reads interleaved with setAspectRatio scalar / function, setPrecipitateShape, set...Shape, assignment of description), every answer compared bitwise with a freshly constructed object in the same configuration, with the root condition and (factor reads) with the independent geometry, including histories that return to an earlier setting; two or three ShapeFactor objects alive at once and used interleaved; ShapeFactor functions on arrays of 1..8 radii / lists / 0-d arrays vs scalar calls with the argument re-used; the same configuration reached through every public calling convention (constructor / setPrecipitateShape / set...Shape, positional / keyword / omitted arguments); bisection traces replayed bit-exactly in Coq; non-trivial = non-spherical shape with an aspect ratio above 1 / '
                        'bracketed root or constant aspect ratio / array with an entry below 1; distinct by hash of the exact input')
     # ---- 1. regenerate the model of the code -------------------------------------------------
     tie_ok, info = regenerate(ctx)
@@ -1158,7 +1422,7 @@ def replay(ctx, obj):
     c = obj.get('input') or obj
     c = {k: v for k, v in c.items() if k != 'corpus'}
     kind = c.get('kind')
-    if kind in ('factors', 'continuity', 'mutation', 'rcrit', 'typed', 'sequence'):
+    if kind in ('factors', 'continuity', 'mutation', 'rcrit', 'typed', 'sequence', 'interleave', 'sf_array', 'convention'):
         hits = evaluate_case(c)
         for h in hits:
             print('replay:', h[0], h[1], h[2], '-', h[3])
